@@ -549,6 +549,12 @@ func (e *escaper) escapeTree(c context, node parse.Node, name string, line int) 
 			e.derived[dname] = dt
 		}
 		t = dt
+	} else if t.Tree == nil || t.Tree.Root == nil {
+		// e.g. an empty template that became part of the set through Clone.
+		return context{
+			state: stateError,
+			err:   errorf(ErrNoSuchTemplate, node, line, "%q is an incomplete or empty template", name),
+		}, dname
 	} else if e.ns.pristine[name] == nil {
 		if e.ns.pristine == nil {
 			e.ns.pristine = map[string]*parse.Tree{}
